@@ -172,7 +172,7 @@ pub fn record(output: &str) {
     quiet_panics();
     let mut out = Out::create(output);
     let mut r = rng(1515);
-    let n = if thorough() { 30_000 } else { 3_000 };
+    let n = if thorough() { 30_000 } else { 6_000 };
     let stacks = ["bare", "tool", "base", "base+tool", "frame", "tool>base", "pgram", "tool>pgram", "pgram>pgram"];
     let mut last_q: Joints = [0.0; 6];
     for k in 0..n {
